@@ -27,4 +27,7 @@ for p in "${patches[@]}"; do
   echo "$name: exit=$rc (want $want) $verdict  violations=$nviol  ${first}  [$((t1-t0))s; tests: $tests]"
   rm -rf "$VERIF"/replays/C08-*.json 2>/dev/null
 done
-exit $fail
+"$VERIF/check" --build-only; exit $fail
+
+# leave the simulator binary built against the clean tree
+"$VERIF/check" --build-only
